@@ -201,7 +201,10 @@ class ParseAPI(object):
         blob = self._electrum_to_blob(s)
         if blob and len(blob) == 32:
             mpk = from_bytes_32(blob)
-            return self._network.keys.electrum_private(master_private_key=mpk)
+            try:
+                return self._network.keys.electrum_private(master_private_key=mpk)
+            except ValueError:
+                pass
         return None
 
     def electrum_pub(self, s: str) -> Any:
@@ -212,7 +215,10 @@ class ParseAPI(object):
         """
         blob = self._electrum_to_blob(s)
         if blob and len(blob) == 64:
-            return self._network.keys.electrum_public(master_public_key=blob)
+            try:
+                return self._network.keys.electrum_public(master_public_key=blob)
+            except ValueError:
+                pass
         return None
 
     def p2pkh(self, s: str) -> Contract | None:
